@@ -78,11 +78,14 @@ LeftJust(sub, k, v) == IF DecWidth(sub) = 0 THEN <<FALSE, 0>>
                        ELSE <<FALSE, 0>>
 BitLen31(n) == IF n = 0 THEN 0 ELSE CHOOSE k \in 1..31 : n >= Pow2(k - 1) /\ (k = 31 \/ n < Pow2(k))
 RoundHE(n, k) == LET q == n \div Pow2(k)  r == n % Pow2(k)  h == Pow2(k - 1) IN IF r > h \/ (r = h /\ q % 2 = 1) THEN q + 1 ELSE q
-DoubleOfL(L) == IF L = -2147483647 - 1 THEN <<-1, 0>> ELSE DySplit(DyNorm(L, -31))
-FloatOfL(L) == IF L = -2147483647 - 1 THEN <<-1, 0>>
+\* L / 2^sh as a double and as a float (sh = 31: normalisation on; sh = 32 - UnnormWidth: normalisation off)
+DoubleOfLs(L, sh) == IF L = -2147483647 - 1 THEN <<-1, 31 - sh>> ELSE DySplit(DyNorm(L, -sh))
+FloatOfLs(L, sh) == IF L = -2147483647 - 1 THEN <<-1, 31 - sh>>
                ELSE LET a == Abs(L)  b == BitLen31(a) IN
-                    IF b <= 24 THEN DyNorm(L, -31)
-                    ELSE LET k == b - 24 IN DyNorm((IF L < 0 THEN -1 ELSE 1) * RoundHE(a, k), k - 31)
+                    IF b <= 24 THEN DyNorm(L, -sh)
+                    ELSE LET k == b - 24 IN DyNorm((IF L < 0 THEN -1 ELSE 1) * RoundHE(a, k), k - sh)
+DoubleOfL(L) == DoubleOfLs(L, 31)
+FloatOfL(L) == FloatOfLs(L, 31)
 \* ---- float / double data read through the integer types (C02) ----
 \* With float-to-int scaling off (the default) sf_read_int / sf_read_short deliver the nearest integer to the stored value (ties to
 \* even); with clipping on, values at or beyond the integer extremes saturate there (the upper limits are INT_MAX and 0x7FFF), with
@@ -108,8 +111,12 @@ XTypeOK(s, c, k, v, x) ==
     ELSE IF ~lj[1] THEN TRUE
     ELSE CASE c.T = "i" -> x = lj[2]
            [] c.T = "s" -> x = lj[2] \div 65536
-           [] c.T = "f" -> ("dy" \in DOMAIN c /\ c.dy /\ s.nf = 1) => x = FloatOfL(lj[2])
-           [] c.T = "d" -> ("dy" \in DOMAIN c /\ c.dy /\ s.nd = 1) => x = DoubleOfL(lj[2])
+           [] c.T = "f" -> ("dy" \in DOMAIN c /\ c.dy) =>
+                              IF s.nf = 1 THEN x = FloatOfL(lj[2])
+                              ELSE (UnnormWidth(s.fmt) > 0 => x = FloatOfLs(lj[2], 32 - UnnormWidth(s.fmt)))
+           [] c.T = "d" -> ("dy" \in DOMAIN c /\ c.dy) =>
+                              IF s.nd = 1 THEN x = DoubleOfL(lj[2])
+                              ELSE (UnnormWidth(s.fmt) > 0 => x = DoubleOfLs(lj[2], 32 - UnnormWidth(s.fmt)))
            [] OTHER -> TRUE
 
 ItemOK(s, c, k, v, x) == IF k = c.T THEN v = x ELSE IF k = "-" THEN TRUE ELSE XTypeOK(s, c, k, v, x)
